@@ -122,35 +122,39 @@ func handleZADD(params internal.HandlerFuncParams) ([]byte, error) {
 		}
 	}
 
+	// When the key does not exist the command applies to an empty sorted set,
+	// so that the flags and the reply are the same as for an existing key.
+	set := NewSortedSet([]MemberParam{})
 	if keyExists {
-		// Key exists
-		set, ok := params.GetValues(params.Context, []string{key})[key].(*SortedSet)
+		var ok bool
+		set, ok = params.GetValues(params.Context, []string{key})[key].(*SortedSet)
 		if !ok {
 			return nil, fmt.Errorf("value at %s is not a sorted set", key)
 		}
-		count, err := set.AddOrUpdate(members, updatePolicy, comparison, changed, incr)
-		if err != nil {
-			return nil, err
-		}
-		// If INCR option is provided, return the new score value, or nil when NX/XX/GT/LT prevented the update
-		if incr != nil {
-			if count == 0 {
-				return []byte("$-1\r\n"), nil
-			}
-			m := set.Get(members[0].Value)
-			return []byte(fmt.Sprintf("+%s\r\n", strconv.FormatFloat(float64(m.Score), 'f', -1, 64))), nil
-		}
-
-		return []byte(fmt.Sprintf(":%d\r\n", count)), nil
 	}
 
-	// Key does not exist.
-	set := NewSortedSet(members)
-	if err = params.SetValues(params.Context, map[string]interface{}{key: set}); err != nil {
+	count, err := set.AddOrUpdate(members, updatePolicy, comparison, changed, incr)
+	if err != nil {
 		return nil, err
 	}
 
-	return []byte(fmt.Sprintf(":%d\r\n", set.Cardinality())), nil
+	// Only create the key when something was added to it.
+	if !keyExists && set.Cardinality() > 0 {
+		if err = params.SetValues(params.Context, map[string]interface{}{key: set}); err != nil {
+			return nil, err
+		}
+	}
+
+	// If INCR option is provided, return the new score value, or nil when NX/XX/GT/LT prevented the update
+	if incr != nil {
+		if count == 0 {
+			return []byte("$-1\r\n"), nil
+		}
+		m := set.Get(members[0].Value)
+		return []byte(fmt.Sprintf("+%s\r\n", strconv.FormatFloat(float64(m.Score), 'f', -1, 64))), nil
+	}
+
+	return []byte(fmt.Sprintf(":%d\r\n", count)), nil
 }
 
 func handleZCARD(params internal.HandlerFuncParams) ([]byte, error) {
